@@ -1808,6 +1808,13 @@ def m_max(an, st, args, dty, site, callee, t):
         return ret1(st, r)
     return m_opaque(an, st, args, dty, site, callee, t)
 
+def m_min(an, st, args, dty, site, callee, t):
+    a, b = args
+    if isinstance(a, Int) and isinstance(b, Int):
+        r = st.fresh_int(dty, "min"); st.C.add(le(r.e, a.e)); st.C.add(le(r.e, b.e))
+        return ret1(st, r)
+    return m_opaque(an, st, args, dty, site, callee, t)
+
 def _array_len(t):
     """N of the `[T; N]` behind the receiver of an array Index call, read from the MIR type of the argument"""
     try:
@@ -2082,6 +2089,9 @@ MODELS = {
     "std::iter::Iterator::all": m_all_any,
     "std::option::Option::<T>::and_then": m_and_then,
     "std::cmp::max": m_max,
+    "std::cmp::min": m_min,
+    "std::cmp::Ord::min": m_min,
+    "std::cmp::Ord::max": m_max,
     "std::array::<impl std::ops::Index<I> for [T; N]>::index": m_array_index,
     "std::array::<impl std::ops::IndexMut<I> for [T; N]>::index_mut": m_array_index,
     "std::iter::Iterator::any": m_any,
@@ -2130,6 +2140,8 @@ MODELS = {
     "core::slice::<impl [u8]>::eq_ignore_ascii_case": m_opaque,
     "core::slice::ascii::<impl [u8]>::eq_ignore_ascii_case": m_opaque,
     "core::slice::ascii::<impl [u8]>::is_ascii": m_opaque,
+    "core::slice::ascii::<impl [u8]>::make_ascii_uppercase": m_noop,
+    "core::slice::ascii::<impl [u8]>::make_ascii_lowercase": m_noop,
     "std::str::from_utf8": m_opaque,
     "core::str::converts::from_utf8": m_opaque,
     "hex::decode": m_opaque,
